@@ -435,7 +435,9 @@ class Concretiser:
         for d in f.get("defs", []):
             out.append('<template name="%s">%s</template>' % (d["n"], self.nodes(d["ch"])))
         out.append(self.nodes(f["root"]))
-        text = ("\n" if self.chance(0.3) else "").join(out)
+        sep = "\n" if self.chance(0.3) else ""
+        # (a line break in front of content that starts with text would become part of that text)
+        text = sep.join(out[:-1]) + (sep if (len(out) > 1 and out[-1].startswith("<")) else "") + out[-1]
         if self.CUT in text:
             text = text[:text.index(self.CUT)]       # the source ends inside the tag
         return text
